@@ -8,7 +8,15 @@ stand-in whose is_alive() turns False once should_exit is set (module
 attribute of lib_guesser.cracking_session, no repository change); then a NEW
 PcfgGrammar + CrackingSession.run(load_session=True) on the save files.
 Coq evaluates the model's state after the j-th guess against the pickled .omn
-and its continuation (empty cache) against what the resumed run emitted."""
+and its continuation (empty cache) against what the resumed run emitted.
+A third family of shards ("session:", one per ruleset) runs the COMBINED session
+model MarkovSession.v (queue run + Markov level + save + restore) on the same
+histories: the loaded tables, the OMEN model, the cut (k pops before the level,
+quit after its j-th guess); the model's interrupted output, saved
+max_probability / omen_guess_number / .omn and the resumed session's whole output
+sequence and pop sequence are compared with what the real sessions did.  The
+model's queue follows the implementation's order inside groups of equal
+probability (pop_follow, proved to meet the heap contract for every order)."""
 import json
 import os
 import pickle
@@ -24,10 +32,14 @@ TRUSTED = ["pickle.dump/load is the identity on int, bool, list of [str,int,int]
            "configparser write/read round trip of the .sav file",
            "the key-press thread is replaced by an inert stand-in that never reads stdin; the quit is pcfg.should_exit set from the "
            "print_guess wrapper (for a loop that polls thread liveness the stand-in's is_alive() is `not should_exit`); thread "
-           "timing and stdin are C12's subject"]
-ASSUMES = ["wf_tables G, first_below_max G", "a further pre-terminal is popped after the interrupted level (else nothing is saved: R18)",
-           "the pop that follows does not have exactly the level's probability (else the level is in C08's tied group and is "
-           "regenerated once)"]
+           "timing and stdin are C12's subject",
+           "session shards: the model's queue is pop_follow over the pop order the implementation showed (only the order inside groups "
+           "of equal probability is taken from the implementation; C15_follow_pop_ok: it meets the heap contract for every order)"]
+ASSUMES = ["wf_tables G, first_below_max G", "a further pre-terminal is popped after the interrupted level (else nothing is saved: R18, "
+           "C15_last_level_not_saved)",
+           "C15_then_rest / C15_tied_level_repeats: well-formed ruleset (NextSpec.wf), any two queues meeting the heap contract "
+           "(pop_ok_okb), sound Optimizer memo tables in both processes; the tied case (the pop that follows has exactly the level's "
+           "probability) is covered by the theorems, not excluded"]
 
 MARKOV_SYMBOLS = ["ω", "ψ", "λ", "ж", "ф", "ξ"]    # disjoint from every terminal of rulesets.py
 
@@ -49,7 +61,10 @@ class _FakeThreading:
     main_thread = staticmethod(threading.main_thread)
 
 
-def run_session(rs, rd, sav, load, quit_after=None, cap=4000, quit_in_next=None):
+CAT = {"M": 0, "C": 1}          # ExpandCorr.cat_of
+
+
+def run_session(rs, rd, sav, load, quit_after=None, cap=4000, quit_in_next=None, tables=False):
     """One run of the real session.  Returns a dict: stream, pops (pt, prob), segments
     (start index in the stream per created pre-terminal), restored (number of guesses
     emitted by restore_omen, or None), next_calls (per MarkovCracker.next_guess call:
@@ -72,6 +87,10 @@ def run_session(rs, rd, sav, load, quit_after=None, cap=4000, quit_in_next=None)
 
     def body():
         pcfg = PcfgGrammar(rs["name"], rd, "4.7", sav, False, False, False)
+        if tables:
+            vm, table, bases = rulesets.model_tables(pcfg)
+            res["model"] = {"vm": vm, "table": table, "bases": bases,
+                            "terms": [[(CAT.get(nm[0], 2), list(grp["values"])) for grp in pcfg.grammar[nm]] for nm in vm.names]}
         if load:
             cfg = pcfg_guesser.load_save(sav, info)
             if cfg is None:
@@ -109,7 +128,7 @@ def run_session(rs, rd, sav, load, quit_after=None, cap=4000, quit_in_next=None)
         class RecQueue(PcfgQueue):
             def next(self):
                 it = PcfgQueue.next(self)
-                res["pops"].append(None if it is None else ([tuple(x) for x in it["pt"]], it["prob"]))
+                res["pops"].append(None if it is None else ([tuple(x) for x in it["pt"]], it["prob"], it["base_prob"]))
                 return it
         real_next = MarkovCracker.next_guess
 
@@ -141,8 +160,12 @@ def run_session(rs, rd, sav, load, quit_after=None, cap=4000, quit_in_next=None)
 
 
 def read_omn(path):
-    with open(path, "rb") as f:
-        return [pickle.load(f) for _ in range(5)]
+    """The five pickles of save_session; None when the file is truncated (save_session raised half-way)."""
+    try:
+        with open(path, "rb") as f:
+            return [pickle.load(f) for _ in range(5)]
+    except (EOFError, pickle.UnpicklingError):
+        return None
 
 
 def gen_case(rng, idx):
@@ -190,6 +213,10 @@ def analyse(U, j, a, b, lvl_pt, R1, R2, replay):
     vio = []
     S1, S2 = R1["stream"], R2["stream"]
     rest_level = U["stream"][j + 1:b]
+    if R1["error"]:
+        vio.append({"sig": "C15:interrupted-raises", "what": "the session quit after guess %d raised: %s" % (j + 1, R1["error"]),
+                    "replay": replay})
+        return vio, "bad"
     if S1 != U["stream"][:j + 1]:
         vio.append({"sig": "C15:interrupted-stream", "what": "run quit after guess %d emitted %d guesses, not the first %d of the "
                     "uninterrupted run" % (j + 1, len(S1), j + 1), "replay": replay})
@@ -292,17 +319,19 @@ def analyse_complete(U, b, lvl_pt, R1, R2, replay, level_strings):
     return vio, ("tied" if tied else "ok")
 
 
-def explore(ctx, rs, om, buckets, sc, dist, cases, samples, max_cuts, two_cases):
+def explore(ctx, rs, om, buckets, sc, dist, cases, samples, max_cuts, two_cases, ms_rulesets):
     vio = []
     rd = os.path.join(sc, "Rules", rs["name"])
     rulesets.write_ruleset(rs, rd)
     sav = os.path.join(sc, "sess_%s.sav" % rs["name"])
     omn = sav[:-4] + ".omn"
-    U = run_session(rs, rd, sav, False)
+    U = run_session(rs, rd, sav, False, tables=True)
     if U["error"]:
         dist["uninterrupted_error"] += 1
         return vio, 0, 0
     dist["rulesets"] += 1
+    ms = {"name": rs["name"], "U": U, "om": om, "cases": []}
+    ms_rulesets.append(ms)
     stream = U["stream"]
     segs = U["segments"] + [(len(stream), None)]
     levels = []
@@ -375,6 +404,14 @@ def explore(ctx, rs, om, buckets, sc, dist, cases, samples, max_cuts, two_cases)
             evaluations += 1
             dist["cuts"] += 1
             dist["cuts_" + kind] += 1
+            if not R1["error"] and not R2["error"] and "model" in U:
+                # the same history for the combined session model (MarkovSession.v)
+                saved_here = bool(R1["pops"]) and R1["pops"][-1] is not None and "omen_guess_number" in gi and state is not None
+                ms["cases"].append({"k": pop_index, "j": j - a + 1, "a": a, "b": b, "cut": j,
+                                    "order1": [q for q in R1["pops"] if q is not None], "out1": R1["stream"],
+                                    "file": (float(gi["max_probability"]), int(gi["omen_guess_number"]), state) if saved_here else None,
+                                    "order2": [q for q in R2["pops"] if q is not None], "out2": R2["stream"],
+                                    "rest": R2["restored"] if R2["restored"] is not None else 0, "kind": kind, "replay": replay})
             if j - a + 1 < b - a and j > a:
                 nontrivial += 1          # strictly inside the level
             if state is not None and R2["restored"] is not None and not R2["error"]:
@@ -475,6 +512,82 @@ def coq_state(state):
     return "((%d)%%Z, (%d, %d), (%d, %d), %s, %s)" % (T, ipc[0], ipc[1], lnc[0], lnc[1], omen_gen.ctree(tree), common.cbool(bool(fg)))
 
 
+MS_HEADER = ["From Coq Require Import List Bool NArith ZArith Floats.",
+             "From Pcfg Require Import ProbAlg F64 Next NextSpec Corr Expand ExpandCorr OmenSpec Omen OmenCorr MarkovSession MarkovSessionCorr.",
+             "From PcfgGen Require Import Consts_gen.", "Import ListNotations.", "Open Scope nat_scope."]
+
+
+def _obs(vm, q):
+    import impl_next
+    return impl_next.coq_obs(vm, {"pt": q[0], "prob": q[1], "base_prob": q[2]})
+
+
+def _obs_list(vm, qs):
+    return common.clist([_obs(vm, q) for q in qs]) if qs else "(@nil obs)"
+
+
+def _strs(l):
+    return common.clist([common.cstr(x) for x in l]) if l else "(@nil str)"
+
+
+def session_shard(ms):
+    """Coq source: the combined session model against every recorded cut of one ruleset."""
+    import impl_next
+    U, om = ms["U"], ms["om"]
+    M = U["model"]
+    vm = M["vm"]
+    ustream = U["stream"]
+    uorder = [q for q in U["pops"] if q is not None]
+    chars = set()
+    for row in M["terms"]:
+        for _, vals in row:
+            for v in vals:
+                chars.update(v)
+    up = [(ch, ch.upper()) for ch in sorted(chars) if ch.upper() != ch]
+    src = list(MS_HEADER)
+    src.append("Definition up : list (N * str) := %s." %
+               (common.clist(["(%d%%N, %s)" % (ord(ch), common.cstr(u)) for ch, u in up]) if up else "(@nil (N * str))"))
+    terms = common.clist([common.clist(["(%d%%nat, %s)" % (cat, _strs(vals)) for cat, vals in row]) if row
+                          else "(@nil (nat * list str))" for row in M["terms"]])
+    src.append("Definition ustream : list str := %s." % _strs(ustream))
+    src.append("Open Scope float_scope.")
+    src.append("Definition rs0 : ruleset F64 := %s." % impl_next.coq_rs(M["table"], M["bases"]))
+    src.append("Definition uorder : list obs := %s." % _obs_list(vm, uorder))
+    names = {}
+    defs = []
+
+    def named(prefix, typ, lit):
+        if lit not in names:
+            names[lit] = "%s_%d" % (prefix, len(names))
+            defs.append("Definition %s : %s := %s." % (names[lit], typ, lit))
+        return names[lit]
+    rows = []
+    for c in ms["cases"]:
+        o1 = c["order1"]
+        order1 = "(firstn %d%%nat uorder)" % len(o1) if o1 == uorder[:len(o1)] else named("o1", "list obs", _obs_list(vm, o1))
+        s1 = c["out1"]
+        out1 = "(firstn %d%%nat ustream)" % len(s1) if s1 == ustream[:len(s1)] else named("s1", "list str", _strs(s1))
+        if c["file"] is None:
+            f = "None"
+        else:
+            mp, num, st = c["file"]
+            f = "(Some ((%s)%%float, %d%%nat, %s))" % (common.cfloat(mp), num, coq_state(st))
+        order2 = named("o2", "list obs", _obs_list(vm, c["order2"]))
+        rest, tail = c["out2"][:c["rest"]], c["out2"][c["rest"]:]
+        if rest == ustream[c["cut"] + 1:c["b"]]:
+            rest_e = "(firstn %d%%nat (skipn %d%%nat ustream))" % (len(rest), c["cut"] + 1)
+        else:
+            rest_e = _strs(rest)
+        out2 = "(%s ++ %s)" % (rest_e, named("t2", "list str", _strs(tail)))
+        rows.append("mk_ms_case %d%%nat %d%%nat %s %s %s %s %s %d%%nat" % (c["k"], c["j"], order1, out1, f, order2, out2, c["rest"]))
+    src += defs
+    src.append("Close Scope float_scope.")
+    src.append("Definition g : sgram F64 := mk_g rs0 %s %s." % (terms, omen_gen.coq_model(om)))
+    src.append("Definition cases : list ms_case := [\n%s]." % ";\n".join(rows))
+    src.append("Eval vm_compute in (check_ms_all up g cases).")
+    return "\n".join(src)
+
+
 def coq_resume_case(c):
     st = coq_state(c["state"])
     return "(%s, (%d)%%Z, %d, %s, %s)" % (omen_gen.coq_model(c["om"]), c["T"], c["j"], st, omen_gen.cstrs(c["rest"]))
@@ -487,10 +600,11 @@ def run(ctx):
     dist = Counter()
     vio, cases, samples = [], [], []
     two_cases = []
+    ms_rulesets = []
     evaluations = nontrivial = 0
     for i in range(nrs):
         rs, om, buckets = gen_case(ctx.rng, i)
-        v, e, n = explore(ctx, rs, om, buckets, sc, dist, cases, samples, max_cuts, two_cases)
+        v, e, n = explore(ctx, rs, om, buckets, sc, dist, cases, samples, max_cuts, two_cases, ms_rulesets)
         vio += v
         evaluations += e
         nontrivial += n
@@ -541,6 +655,25 @@ def run(ctx):
                              % ("is" if consts()["omen_number_cleared"] else "is never", idx, json.dumps(c["replay"])[:500])))
             else:
                 corr.append(("session-two-cycle:" + name, True, ""))
+    # ---- correspondence: the combined session model (queue + level + save + restore) on the same histories
+    ms_shards = [("m%04d" % i, session_shard(ms)) for i, ms in enumerate(ms_rulesets) if ms["cases"]]
+    ms_index = [ms for ms in ms_rulesets if ms["cases"]]
+    if ms_shards:
+        for name, idx, log in common.run_case_shards("C15c", ms_shards):
+            ms = ms_index[[n for n, _ in ms_shards].index(name)]
+            if idx is None:
+                corr.append(("session:" + name, False, log[-1200:]))
+            elif idx:
+                c = ms["cases"][idx[0]]
+                corr.append(("session:" + name, False, "combined session model (MarkovSession.v) and the real sessions differ on cuts %s of "
+                             "ruleset %s; first: %d pre-terminals before the level, quit after its guess %d (%s): interrupted output / "
+                             "saved max_probability, omen_guess_number, .omn / resumed output or pop sequence; replay %s"
+                             % (idx, ms["name"], c["k"], c["j"], c["kind"], json.dumps(c["replay"])[:300])))
+            else:
+                corr.append(("session:" + name, True, ""))
+    dist["coq_session_cases"] = sum(len(ms["cases"]) for ms in ms_rulesets)
+    dist["coq_session_cases_tied"] = sum(1 for ms in ms_rulesets for c in ms["cases"] if c["kind"] == "tied")
+    dist["coq_session_cases_last"] = sum(1 for ms in ms_rulesets for c in ms["cases"] if c["kind"] == "last")
     dist["coq_two_cycle_cases"] = len(two_cases)
     dist["coq_cases"] = len(cases)
     rule = ("generated rulesets with an 'M' base structure over a generated OMEN model (ngram 2-4) and 1-3 Markov levels of 1..60 "
@@ -548,7 +681,9 @@ def run(ctx):
             "print_guess wrapper), new PcfgGrammar + run(load_session=True) on the written .sav/.omn; oracle: restored part = remainder "
             "of the level exactly, nothing after it lost, the level not regenerated unless tied with the saved probability; for two cuts "
             "per level a second quit (inside the remainder / outside the level) and a third run: no replay; non-trivial = the cut is "
-            "strictly inside the level; distinct by (ruleset, cut list)")
+            "strictly inside the level; distinct by (ruleset, cut list); every such cut is also run through the combined session model "
+            "MarkovSession.v (interrupted output, saved max_probability / omen_guess_number / .omn, resumed output and pop sequence "
+            "compared exactly, the model's queue following the implementation inside groups of equal probability)")
     return {"evaluations": evaluations, "distinct_nontrivial": nontrivial, "rule": rule, "samples": samples,
             "corr": corr, "violations": vio, "dist": dict(dist)}
 
